@@ -667,6 +667,25 @@ def summarise(func, limit=6000, to_raise=True, lists=False):
                         if tval != (lab == 'T'):
                             ps.infeasible = True
                         skip_fact = True
+                    # a display (tuple, list, dict ...) is never None
+                    if not skip_fact and isinstance(core, ast.Compare) and len(core.ops) == 1 \
+                            and isinstance(core.ops[0], (ast.Is, ast.IsNot)):
+                        l_, r_ = core.left, core.comparators[0]
+                        if isinstance(l_, ast.Constant) and l_.value is None:
+                            l_, r_ = r_, l_
+                        if isinstance(r_, ast.Constant) and r_.value is None and \
+                                isinstance(l_, (ast.Tuple, ast.List, ast.Dict, ast.Set,
+                                                ast.ListComp, ast.DictComp, ast.SetComp)):
+                            val_ = not isinstance(core.ops[0], ast.Is)
+                            nots = 0
+                            x_ = t
+                            while isinstance(x_, ast.UnaryOp) and isinstance(x_.op, ast.Not):
+                                x_ = x_.operand
+                                nots += 1
+                            tval = val_ if nots % 2 == 0 else not val_
+                            if tval != (lab == 'T'):
+                                ps.infeasible = True
+                            skip_fact = True
                     # identity against a module-level sentinel (`_NOTHING = object()`,
                     # bound once): the sentinel is itself, and it is neither the result
                     # of a call, nor a literal, nor another sentinel
